@@ -24,24 +24,24 @@ type V struct {
 
 // Info is the classification of an exchange that all monitors share.
 type Info struct {
-	Ex        *sim.Exchange
-	HasResp   bool
-	FromStore bool
-	Mb, Mh    *sim.UpCall // body message, header-block message
-	FgCalls   []*sim.UpCall
-	BgCalls   []*sim.UpCall
-	Got304    bool // a foreground call of this exchange was answered 304
-	FgFailed  bool // a foreground call failed (error or 5xx)
-	ReqCC     oracle.CC
-	StCC      oracle.CC // Cache-Control of the effective stored header block
-	Stored    oracle.Stored
-	Age       oracle.Bounds // current age at the call instant
-	AgeRet    oracle.Bounds // current age at the return instant
-	Life      oracle.Bounds
-	Known     bool // Mh found and date unambiguous: age / lifetime usable
-	Why       string
+	Ex          *sim.Exchange
+	HasResp     bool
+	FromStore   bool
+	Mb, Mh      *sim.UpCall // body message, header-block message
+	FgCalls     []*sim.UpCall
+	BgCalls     []*sim.UpCall
+	Got304      bool // a foreground call of this exchange was answered 304
+	FgFailed    bool // a foreground call failed (error or 5xx)
+	ReqCC       oracle.CC
+	StCC        oracle.CC // Cache-Control of the effective stored header block
+	Stored      oracle.Stored
+	Age         oracle.Bounds // current age at the call instant
+	AgeRet      oracle.Bounds // current age at the return instant
+	Life        oracle.Bounds
+	Known       bool // Mh found and date unambiguous: age / lifetime usable
+	Why         string
 	SurelyStale bool
-	SurelyFresh bool // fresh by more than one second
+	SurelyFresh bool          // fresh by more than one second
 	Staleness   time.Duration // lower bound
 }
 
